@@ -360,6 +360,12 @@ func SimMain(t *testing.T) {
 		log.SetOutput(io.Discard)
 	}
 	litefs.TraceLog.SetOutput(io.Discard)
+	if kf := os.Getenv("SIM_KNOWN"); kf != "" {
+		if err := json.Unmarshal([]byte(kf), &knownFindings); err != nil {
+			fmt.Println("bad SIM_KNOWN:", err)
+			os.Exit(2)
+		}
+	}
 	if p := os.Getenv("SIM_EVLOG"); p != "" {
 		evlog, _ = os.Create(p)
 	}
